@@ -275,6 +275,56 @@ def run(ctx, report):
                 R3.violation(inst, 'push-word:%s' % label, 'parse_mnemo turns the 16-bit push operand "%s" into %s' % (label, 'a memory operand' if is_mem else 'a non-memory operand (its base register is then pushed)'),
                              where(arch, st), witness="asm('push WORD PTR [eax]') == [66 50]")
 
+    # segment overrides: printed by the decoder for every prefixed memory operand, so the assembler side must keep them
+    seg_ifs = [n for n in walk_no_nested(ac) if isinstance(n, ast.If) and u(n.test).replace(' ', '') == 'x86_afs.segmina']
+    if not seg_ifs:
+        raise AnalysisError('asm_candidates: handling of the segm key of operands not found')
+    for n in seg_ifs:
+        # must-pass-through: every path through the body reaches prefix.append(prefix_seg[..]) and del a[segm]
+        def reaches(stmts):
+            for st in stmts:
+                if isinstance(st, ast.If):
+                    if any(isinstance(x, ast.Continue) for x in ast.walk(st)):
+                        return False, st
+                if any(isinstance(x, ast.Call) and u(x.func) == 'prefix.append' and 'prefix_seg' in u(x) for x in ast.walk(st)):
+                    return True, st
+            return False, None
+        okp, where_ = reaches(n.body)
+        dels = any(isinstance(x, ast.Delete) and 'x86_afs.segm' in u(x) for st in n.body for x in ast.walk(st))
+        if okp and dels:
+            R3.ok('segm-prefix', sample='every operand with a segment override contributes its prefix byte and loses the segm key')
+        else:
+            R3.violation('segm-prefix', 'segm-prefix:skipped', 'asm_candidates skips the segment prefix on some path (%s): the segm key stays in the operand and no encoding matches'
+                         % (norm(where_)[:70] if where_ is not None else 'no prefix.append'), where(arch, n), witness="asm('inc DWORD PTR es:[edi]') == []")
+    ptr2 = pa.funcs.get('p_ptrformula_2')
+    if ptr2 is None:
+        raise AnalysisError('parse_ad.p_ptrformula_2 not found')
+    for seg in range(6):
+        for regs, label in (({0: 1}, '[eax]'), ({5: 1}, '[ebp]'), ({4: 1}, '[esp]'), ({0: 1, 5: 1}, '[eax+ebp]'), ({}, '[disp]')):
+            formula = dict(regs)
+            formula.update({afs.ad: True, afs.size: True})
+            if not regs:
+                formula[afs.imm] = 16
+            t = [None, {afs.ad: afs.u32}, {afs.segm: seg}, formula]
+            ev_ = Evaluator(dict(E, x86_afs=afs))
+            try:
+                ev_.call_user(ptr2, [t])
+            except NotConst as e:
+                raise AnalysisError('parse_ad.p_ptrformula_2 not evaluable: %s' % e)
+            res = t[0]
+            inst = 'ptrformula DWORD PTR %s:%s' % (list(afs.reg_sg)[seg], label)
+            problems = []
+            if res.get(afs.ad) != afs.u32:
+                problems.append('the PTR size is lost (ad = %r)' % res.get(afs.ad))
+            need_seg = seg != 3 or 4 in regs or 5 in regs
+            if need_seg and res.get(afs.segm) != seg:
+                problems.append('the %s: override is dropped although the default segment of %s is %s' % (list(afs.reg_sg)[seg], label, 'ss' if (4 in regs or 5 in regs) else 'ds'))
+            if problems:
+                R3.violation(inst, 'ptrformula:%s:%s' % ('ds' if seg == 3 else 'seg', ';'.join(problems)[:50]), 'parsing "%s": %s' % (inst[11:], '; '.join(problems)), where(pa, ptr2),
+                             witness="asm('push DWORD PTR fs:[eax]') == []" if 'size' in problems[0] else "3e 8b 45 00 re-assembles to 8b 45 00")
+            else:
+                R3.ok(inst, sample='%s keeps size%s' % (inst, ' and segment' if need_seg else ''), nontrivial=(seg in (3, 4)))
+
     R4 = report.rule('C03.D4', 'the operand renderer emits displacement, symbol and segment exactly once on every path', floor=6)
     from ..linear import Linear
     branches = {}
@@ -307,6 +357,9 @@ def run(ctx, report):
 
 
 MUTANTS = [
+    ('segm-single-skip', 'miasmx/arch/ia32_arch.py', "            if x86_afs.segm in a:\n                #print a\n", "            if x86_afs.segm in a:\n                if len(args_eval) == 1 and not name in ['push', 'pop']:\n                    continue\n", 'C03.D3'),
+    ('ptrformula-size-first', 'miasmx/core/parse_ad.py', "    t[0].update(t[1])\n\ndef p_symbolregister", "    t[1].update(t[0])\n    t[0] = t[1]\n\ndef p_symbolregister", 'C03.D3'),
+    ('ptrformula-ds-always-dropped', 'miasmx/core/parse_ad.py', "    if t[2][x86_afs.segm] != 3 or 4 in t[3] or 5 in t[3]:", "    if t[2][x86_afs.segm] != 3:", 'C03.D3'),
     ('push-word-any', 'miasmx/arch/ia32_arch.py', "        if name == 'push' and args[0][x86_afs.size] == x86_afs.u16 \\\n                and not [k for k in args[0] if type(k) == int]:", "        if name == 'push' and args[0][x86_afs.size] == x86_afs.u16:", 'C03.D3'),
     ('movsd-store-string', 'miasmx/arch/ia32_arch.py', "                and args[0][x86_afs.size] != x86_afs.xmm \\\n                and args[1][x86_afs.size] != x86_afs.xmm:", "                and args[0][x86_afs.size] != x86_afs.xmm:", 'C03.D3'),
     ('disp-twice', 'miasmx/arch/ia32_arch.py', "                        address[0] = add_imm_to_string(\"\", immediate, imm_size)\n                        immediate = 0\n", "                        address[0] = add_imm_to_string(\"\", immediate, imm_size)\n", 'C03.D4'),
